@@ -25,7 +25,7 @@ CHECKS = {
                 text="Published models (5-321 variables): for every complete strategy run z3 decides exactly-the-minimal-trap-spaces over all subspaces (checks/models_tv.py). Small symbolic networks: Every completing strategy (bfs, dfs, minimal-space +-skip, attractor-seed, block with all flag combinations, source-SCC) and limited strategies completed by skipping, optionally after a plain prefix call with symbolic limits: z3 decides per path class that the expanded leaves are exactly the inclusion-minimal trap spaces. U2 exhaustive for single strategies; D3/B21 (quick) and U3/B22/CH4/S2C2 (thorough) time-boxed."),
     "C04": dict(engine="E-CAB", category="model_checking", design_ref="§3.2, §6 C04", technique=T_CAB + "; per-model SMT validation on the published models (z3 over all states / all subspaces of the validated Petri net)",
                 text="Histories of plain expansion calls with symbolic start nodes, limits and targets; after every call the partial-diagram invariant is decided for the whole path class, and the continued full expansion is decided against the C02 hierarchy and compared with a fresh diagram."),
-    "C06": dict(engine="E-CAB", category="model_checking", design_ref="§6 C06", technique=T_CAB,
+    "C06": dict(engine="E-CAB", category="model_checking", design_ref="§6 C06", technique=T_CAB + "; per-model SMT validation on the published models (z3: motif chain over the validated Petri net, override LDOI as least fixed point over all states, minimal trap spaces inside the final space enumerated by SAT)",
                 text="Real succession_control over a symbolic network with symbolic target, strategy, driver bound, forbidden set and skip_feedforward flag, on fresh and pre-expanded/skipped/block-expanded diagrams: for every intervention flagged successful z3 decides nesting of the trap spaces, LDOI containment of the motif, and - over the overridden network's REACH/ATTR - that every attractor reachable from the previous trap space carries the motif; the final space's minimal trap spaces lie in the target."),
     "C07": dict(engine="E-CAB", category="model_checking", design_ref="§6 C07", technique=T_CAB,
                 text="On a fresh diagram: the diagram after control is a faithful partial diagram expanded exactly where the target requires; every root path x motif choice is listed iff it ends in an outermost node all of whose minimal trap spaces lie in the target; per step the reported overrides are exactly the inclusion-minimal allowed variable sets within the bound that force the motif (decided with the symbolic percolation definition); success flag and successful_only filter are exact."),
